@@ -183,6 +183,12 @@ func c03References(r *engine.Run) bool {
 			two = append(two, fmt.Sprintf("(bases %d to %d; %d to %d)", a, a, c, L))
 		}
 	}
+	// ranges listed in descending order (an origin-spanning reference of a circular record)
+	for a := 2; a <= L; a += 2 {
+		for c := 1; c < a; c += 2 {
+			two = append(two, fmt.Sprintf("(bases %d to %d; %d to %d)", a, L, 1, c))
+		}
+	}
 	other := []string{"(sites)", "", "(bases 1 to 2", "(residues 1 to 2)", "(bases 1 to)", "bases 1 to 2"}
 	type win struct{ s, e int }
 	var wins []win
